@@ -54,4 +54,9 @@ theorem incompatible_sizes_are_refused : plan ⟨64, 32, 2, 4⟩ 0 = .error .sha
 /-- an axis that is halved with an old chunk size of 1 cannot be processed: ZeroDivisionError -/
 theorem chunk_size_one_on_halved_axis : plan ⟨8, 4, 1, 2⟩ 0 = .error .zeroDiv := by decide
 
+/-- non-vacuity of `completed_level_is_correct`: every new chunk of a compatible axis has a schedule -/
+example : ∀ n, 8 * n < 32 → ∃ parts, plan ⟨64, 32, 8, 8⟩ n = .ok parts :=
+  fun n hn => compatible_plan_succeeds ⟨64, 32, 8, 8⟩
+    ⟨by decide, by decide, by decide, by decide, ⟨4, by decide⟩, Or.inr (by decide)⟩ n hn
+
 end NgVerif.Props.C06
